@@ -254,8 +254,14 @@ def column_adder(prog, res, f, kind, rule='column'):
     guards = [R.render(i['cond']) for i in f.all_nodes({'IfStmt'}) if any(f.nodes[x]['k'] == 'CXXThrowExpr' for x in f.descendants(i['then']))]
     allg = ' ;; '.join(guards)
 
+    import indexsites as _IS
+    known = {(l_, op_, r_) for l_, op_, r_, _x in _IS.facts_at(f, R, n['id'])}
+
     def refused(a, b):
-        return any(('(%s != %s)' % (x, y)) in allg for x, y in ((a, b), (b, a)))
+        if any(('(%s != %s)' % (x, y)) in allg for x, y in ((a, b), (b, a))):
+            return True
+        # ... or the equality is established through a validating helper (throwing, or reporting a reason that is thrown)
+        return (a, '==', b) in known or (b, '==', a) in known
     NP0 = 'arg0[0]._points._points.size'
     NC0 = 'arg0[0]._analogs.subframe(0)._channels.size'
     NC0b = 'arg0[0]._analogs._subframe[0]._channels.size'
